@@ -14,8 +14,8 @@ PID = "C20"
 
 
 def run(tier):
-    fam = [("full", ["ints", "bool", "float", "str", "char", "rec", "enum", "opt", "loops", "calls", "ret", "fstr"], 2, 300, 5000, 2),
-           ("scalar", ["ints", "bool", "float", "char", "calls", "ret"], 2, 300, 5000, 3)]
+    fam = [("full", ["ints", "bool", "float", "str", "char", "rec", "enum", "opt", "loops", "calls", "ret", "fstr"], 2, 700, 5000, 2),
+           ("scalar", ["ints", "bool", "float", "char", "calls", "ret"], 2, 600, 5000, 3)]
     rc = semlib.run_sem_check(
         PID, tier, fam, want_eval=True,
         rule=("cases = (lowered program, inputs) pairs executed by both the LIR evaluator and the JIT; distinct = distinct "
